@@ -16,7 +16,7 @@ RULE = (
     "{letter, lower-case letter, word, lower-case word, letter+trailing text}, body shape per section in {1 item, "
     "empty, 2 items, trailing blank, trailing comment}, ~O bodies incl. inner blank and item-looking lines, one "
     "steering decoy (VERS/WRAP/NULL/DLM with a value that would change parsing) in ~C, ~P or the custom section, "
-    "LAS version 2.0 or 1.2 (the 1.2 ~W layout), 2..3 data rows with one genuine-NULL and one decoy-NULL cell, both engines, ignore_data on/off, blank/comment lines at the end or start of ~A, one undeclared surplus data column, a text column of ISO dates, ~W with or without a NULL item, decoys also in ~W (DLM, WRAP, VERS) and ~V (NULL); custom titles incl. ~MUD_DATA / ~mud_data / ~Run_parameter / ~TOOL_DEFINITION; enumeration = k-deviation ball "
+    "LAS version 2.0 or 1.2 (the 1.2 ~W layout), 2..3 data rows with one genuine-NULL and one decoy-NULL cell, both engines, ignore_data on/off, blank/comment lines at the end or start of ~A, one undeclared surplus data column, a text column of ISO dates, ~W with or without a NULL item, decoys also in ~W (DLM, WRAP, VERS) and ~V (NULL); custom titles incl. ~MUD_DATA / ~mud_data / ~Run_parameter / ~TOOL_DEFINITION; up to three custom sections (one more after ~X, two more, one before ~A, an empty one, one with a near-identical title); ~C that is its title line only; enumeration = k-deviation ball "
     "around the canonical file with the order axis taking all 720 values; non-trivial = order differs from "
     "V,W,C,P,O,X,A or a title is not the upper-case letter form or a decoy is present"
 )
@@ -204,6 +204,8 @@ def build(pt):
 
 
 def check_point(pt):
+    from ..core import inputs as _inputs
+    _inputs.process_prelude()   # explored in a process that has already read many other files (see core/inputs.py)
     text, abstract, exp = build(pt)
     nontriv = pt["order"] != "WCPOXA" or any(pt["t" + s] != 0 for s in "VWCPOXA") or pt["decoy"] is not None
     size = len(text) + 1000 * pt.get("_dev", 0)
